@@ -98,10 +98,7 @@ func runReplace(c trieg.Case, r *pb.Rec) error {
 		return nil
 	}
 	var tr algz.Trie
-	for _, p := range c.Patterns {
-		tr.Insert(p)
-	}
-	tr.BuildFailureLinks()
+	trieg.BuildStaged(c, tr.Insert, tr.BuildFailureLinks)
 	text := string(c.Text)
 	occ, _ := trieg.Occurrences(c.Patterns, text)
 	rs := regions(occ, len(text))
@@ -166,6 +163,7 @@ func runReplace(c trieg.Case, r *pb.Rec) error {
 	r.ClassIf(!utf8.ValidString(text), "invalid-UTF-8 text")
 	r.ClassIf(c.Repl == "", "empty replacement")
 	r.ClassIf(len(occ) == 0, "no occurrence")
+	r.ClassIf(len(c.Stages) > 0, "failure links rebuilt after further inserts")
 	r.NonTrivialIf(big && leftMerge)
 	return nil
 }
@@ -188,7 +186,7 @@ func FuzzReplace(f *testing.F) {
 
 func init() {
 	pb.Register("trie_replace", pb.Options{Base: 10000,
-		Required: []string{"left-extending merge", "touching regions", "nested", "invalid-UTF-8 text", "empty replacement", "no occurrence"},
+		Required: []string{"left-extending merge", "touching regions", "nested", "invalid-UTF-8 text", "empty replacement", "no occurrence", "failure links rebuilt after further inserts"},
 		Rule:     "same generators as C05 plus the shape of the statement (A1 G1 A2 G2 ... Ak T with short patterns Ai and a long pattern starting inside A1 and ending after Ak), touching occurrences, replacement strings from the text alphabet (ambiguous on purpose), empty replacement, masks of width 1-4; oracle: byte-level brute-force coverage; ReplaceWithMask = per-rune masking (valid text); Replace output parsed as U0 R^k1 U1 ... with 1<=kj<=occurrences by dynamic programming; no panic for any text; non-trivial = a maximal region made of >= 3 occurrences with a left-extending merge"},
 		trieg.Gen, runReplace)
 }
